@@ -22,7 +22,7 @@ import (
 	"github.com/voedger/voedger/pkg/itokensjwt"
 )
 
-var appName = appdef.NewAppQName("verif", "app")
+var appName = istructs.AppQName_test1_app1 // a name the built-in application table knows
 
 const pkgName = "t"
 
@@ -188,13 +188,82 @@ func errClass(err error) int {
 	return 9
 }
 
-// start = one application start on the storage with the given definition
-func start(st istorage.IAppStorage, def appdef.IAppDef) (istructs.IAppStructs, error) {
-	prov := istructsmem.Provide(istructsmem.AppConfigsType{},
+// process = one OS process running the application: one provider with one built-in application
+// configuration (its registry objects and version cache live as long as the process), whose
+// definition builder may grow between attempts.  IAppStructsProvider.BuiltIn prepares the
+// configuration on the first call and again on every call until it is prepared.
+type process struct {
+	prov   istructs.IAppStructsProvider
+	adb    appdef.IAppDefBuilder
+	ws     appdef.IWorkspaceBuilder
+	docs   map[string]bool
+	hasRec bool
+	ready  bool // the configuration is prepared (the application runs)
+}
+
+func (p *process) addDoc(d docSpec) {
+	if p.docs[d.Name] {
+		return
+	}
+	if len(d.Containers) > 0 && !p.hasRec {
+		p.ws.AddCRecord(qn("rec"))
+		p.hasRec = true
+	}
+	doc := p.ws.AddCDoc(qn(d.Name))
+	if d.Singleton {
+		doc.SetSingleton()
+	}
+	for _, c := range d.Containers {
+		doc.AddContainer(c, qn("rec"), 0, 1)
+	}
+	p.docs[d.Name] = true
+}
+
+func newProcess(st istorage.IAppStorage, s schema) (p *process, err error) {
+	defer func() {
+		if r := recover(); r != nil {
+			err = fmt.Errorf("schema does not build: %v", r)
+		}
+	}()
+	p = &process{adb: builder.New(), docs: map[string]bool{}}
+	p.adb.AddPackage(pkgName, "test.com/t")
+	p.ws = p.adb.AddWorkspace(qn("ws"))
+	for _, d := range s.Docs {
+		if len(d.Containers) > 0 && !p.hasRec { // the record type first, as schema.build does
+			p.ws.AddCRecord(qn("rec"))
+			p.hasRec = true
+		}
+	}
+	for _, d := range s.Docs {
+		p.addDoc(d)
+	}
+	cfgs := istructsmem.AppConfigsType{}
+	cfg := cfgs.AddBuiltInAppConfig(appName, p.adb)
+	cfg.SetNumAppWorkspaces(1)
+	p.prov = istructsmem.Provide(cfgs,
 		payloads.ProvideIAppTokensFactory(itokensjwt.ProvideITokens(itokensjwt.SecretKeyExample, testingu.MockTime)),
 		oneStorage{st}, isequencer.SequencesTrustLevel_0, nil)
-	return prov.New(appName, def, 1, 1)
+	return p, nil
 }
+
+// grow adds the documents of s the builder does not have yet (an in-process retry may come with
+// a changed definition: the configuration rebuilds it from the builder on every attempt)
+func (p *process) grow(s schema) (err error) {
+	defer func() {
+		if r := recover(); r != nil {
+			err = fmt.Errorf("schema does not build: %v", r)
+		}
+	}()
+	for _, d := range s.Docs {
+		p.addDoc(d)
+	}
+	return nil
+}
+
+func (p *process) def() (appdef.IAppDef, error) { return p.adb.Build() }
+
+// get = the application start of this process, or its in-process retry
+func (p *process) get() (istructs.IAppStructs, error) { return p.prov.BuiltIn(appName) }
 
 func rename(st istorage.IAppStorage, oldN, newN string) error {
 	return qrename.Rename(st, appdef.MustParseQName(oldN), appdef.MustParseQName(newN))
